@@ -238,8 +238,14 @@ json raw_tracks(world& w)
     json out = {{"rows", rows}};
     out["integrity"] = rr.text("PRAGMA integrity_check");
     int nfk = 0;
-    rr.query("PRAGMA foreign_key_check", [&](sqlite3_stmt*) { ++nfk; });
+    json fkl = json::array();
+    for (auto& v : rr.fk_violations())
+    {
+        ++nfk;
+        fkl.push_back(v);
+    }
     out["fk"] = nfk;
+    out["fkl"] = fkl;
     auto ov = vh::guarded("verify", [&] { w.db->verify(); });
     out["verify"] = ov.ok ? "ok" : ov.ex;
     return out;
